@@ -279,3 +279,32 @@ def finish(R):
     with open(os.path.join(VERIF, "evidence", R.pid + ".json"), "w") as f:
         json.dump(ev, f, indent=1, default=str, ensure_ascii=True)
     return exit_code
+
+
+def unit_corr(imports, run_def, in_ty, out_ty, eqb, cases, label="unit", shard=400, extra_defs=""):
+    """Generic function-level correspondence.
+    run_def: Gallina text of a function  in_ty -> out_ty ; cases: list of (in_coq, out_coq).
+    Returns (mismatch_indices, broken)."""
+    files = []
+    for s in range(0, len(cases), shard):
+        chunk = cases[s:s + shard]
+        body = CASE_HDR + imports + "\n" + extra_defs + "\n"
+        body += "Definition run1 : %s -> %s := %s.\n" % (in_ty, out_ty, run_def)
+        body += "Definition cases : list ((%s) * (%s)) := %s.\n" % (
+            in_ty, out_ty, "[" + ";\n ".join("(%s, %s)" % c for c in chunk) + "]" if chunk else "[]")
+        body += "Definition mm := mismatches run1 (%s) cases 0%%N.\n" % eqb
+        body += "Eval vm_compute in (map fst mm).\nEval vm_compute in (map snd (firstn 3 mm)).\n"
+        files.append(("%s_%d" % (label, s), body))
+    mism, broken = [], []
+    for (name, rc, out, err), s in zip(coq_eval_files(files), range(0, len(cases), shard)):
+        if rc != 0:
+            broken.append({"what": "model evaluation failed (%s)" % name, "log": (out + err)[-2000:]})
+            continue
+        ii = parse_mismatch_indices(out)
+        if ii is None:
+            broken.append({"what": "unparsable model output (%s)" % name, "log": out[-2000:]})
+            continue
+        tail = out.split(": list N", 1)[-1][-1500:] if ii else ""
+        for k in ii:
+            mism.append((s + k, tail))
+    return mism, broken
